@@ -30,6 +30,7 @@ from ..type import (
     is_list_type,
     is_non_null_type,
 )
+from .value_to_literal import default_scalar_value_to_literal
 
 __all__ = ["ast_from_value"]
 
@@ -136,6 +137,10 @@ def ast_from_value(value: Any, type_: GraphQLInputType) -> ConstValueNode | None
 
             if not _re_surrogate.search(coerced):
                 return StringValueNode(value=coerced)
+
+        # A custom scalar may serialize to a list or a mapping (e.g. JSON).
+        if isinstance(coerced, (list, tuple, Mapping)):
+            return default_scalar_value_to_literal(coerced)
 
         msg = f"Cannot convert value to AST: {inspect(coerced)}."
         raise TypeError(msg)
